@@ -14,19 +14,19 @@ def ACC_Union(self, val):
 SPEC("pane.converters", "UnionConverter.try_convert",
      shapes={"self.converters": "seq", "self.constructor": "total"},
      note="constructor assumed total (None for plain unions; ValueOrList's lambda cannot raise)",
-     returns_iff=(lambda self, val: ACC_Union(self, val), ["C11", "C01", "C03"]),
+     returns_iff=(lambda self, val: ACC_Union(self, val), ["C11", "C01", "C03", "C05", "C06"]),
      ensures=[(lambda self, val, result:
                exists(range(slen(self.converters)),
                       lambda j: acc(sat(self.converters, j), val)
                       and forall(range(j), lambda k: not acc(sat(self.converters, k), val))
                       and result == union_construct(self, out(sat(self.converters, j), val), j)),
-               ["C11", "C01"], "val")],
+               ["C11", "C01", "C05", "C06"], "val")],
      raises=(lambda self, val, exc: exc_is(exc, ParseInterrupt), ["C04", "C11"]),
      invariants={0: lambda it, val, val0, self: val is val0 and
                  forall(range(it), lambda j: not acc(sat(self.converters, j), val0))})
 
 SPEC("pane.converters", "UnionConverter.collect_errors",
-     shapes={"self.converters": "seq", "self.constructor": "total"},
+     shapes={"self.converters": "seq", "self.constructor": "total", ".children": "seq"},
      ensures=[(lambda self, val, result: is_none(result) == ACC_Union(self, val), ["C03", "C11"], "pair"),
               # one child per member, in declaration order, each the member's own tree for the same value
               (lambda self, val, result: ACC_Union(self, val) or
@@ -61,12 +61,12 @@ SPEC("pane.converters", "StructConverter.try_convert",
      shapes={"val": "map", "self.fields": "map", "self.field_converters": "map", "self.opt_fields": "set", "self.ty": "total"},
      note="self.ty assumed total on dicts (make_converter passes type(<mapping literal>))",
      requires=lambda self, val: wf_Struct(self),
-     returns_iff=(lambda self, val: ACC_Struct(self, val), ["C01", "C02", "C03"]),
+     returns_iff=(lambda self, val: ACC_Struct(self, val), ["C01", "C02", "C03", "C05", "C06"]),
      ensures=[(lambda self, val, result:
                exists_val(lambda D: result == call(self.ty, D)
                           and forall_val(lambda k: mhas(D, k) == mhas(val, k))
                           and forall_val(lambda k: implies(mhas(val, k), mget(D, k) == out(mget(self.field_converters, k), mget(val, k))))),
-               ["C01"], "val")],
+               ["C01", "C05", "C06"], "val")],
      raises=(lambda self, val, exc: exc_is(exc, ParseInterrupt), ["C04"]),
      invariants={0: lambda it, d, self, val:
                  forall(range(it), lambda j: mhas(self.fields, key_at(val, j))
@@ -114,9 +114,9 @@ def ACC_Tuple(self, val):
 SPEC("pane.converters", "TupleConverter.try_convert",
      shapes={"val": "seq", "self.converters": "seq", "self.ty": "total"},
      note="self.ty assumed total on iterables (tuple/list or a plain subclass)",
-     returns_iff=(lambda self, val: ACC_Tuple(self, val), ["C01", "C02", "C03"]),
+     returns_iff=(lambda self, val: ACC_Tuple(self, val), ["C01", "C02", "C03", "C05", "C06"]),
      ensures=[(lambda self, val, result:
-               result == call(self.ty, gen_of(slen(val), lambda j: out(sat(self.converters, j), sat(val, j)))), ["C01"], "val")],
+               result == call(self.ty, gen_of(slen(val), lambda j: out(sat(self.converters, j), sat(val, j)))), ["C01", "C05", "C06"], "val")],
      raises=(lambda self, val, exc: exc_is(exc, ParseInterrupt), ["C04"]))
 
 SPEC("pane.converters", "TupleConverter.collect_errors",
@@ -157,8 +157,8 @@ def ACC_Seq(self, val):
 
 SPEC("pane.converters", "SequenceConverter.try_convert",
      shapes={"val": "seq", "self.v_conv": "conv", "self.constructor": "callable"},
-     returns_iff=(lambda self, val: ACC_Seq(self, val), ["C01", "C02", "C03"]),
-     ensures=[(lambda self, val, result: result == call(self.constructor, seq_image(self, val)), ["C01"], "val")],
+     returns_iff=(lambda self, val: ACC_Seq(self, val), ["C01", "C02", "C03", "C05", "C06"]),
+     ensures=[(lambda self, val, result: result == call(self.constructor, seq_image(self, val)), ["C01", "C05", "C06"], "val")],
      raises=(lambda self, val, exc: exc_is(exc, ParseInterrupt), ["C04"]))
 
 SPEC("pane.converters", "SequenceConverter.collect_errors",
@@ -196,11 +196,11 @@ SPEC("pane.converters", "DictConverter.try_convert",
      shapes={"val": "map", "self.k_conv": "conv", "self.v_conv": "conv", "self.constructor": "total"},
      note="constructor assumed total on dicts (dict subclasses / defaultdict lambda); key type assumed hashable",
      requires=lambda self, val: wf_Dict(self),
-     returns_iff=(lambda self, val: ACC_Dict(self, val), ["C01", "C02", "C03"]),
+     returns_iff=(lambda self, val: ACC_Dict(self, val), ["C01", "C02", "C03", "C05", "C06"]),
      ensures=[(lambda self, val, result:
                exists_val(lambda D: result == call(self.constructor, D)
                           and forall_val(lambda k2: mhas(D, k2) == exists_val(lambda k: mhas(val, k) and out(self.k_conv, k) == k2))
-                          and forall_val(lambda k: implies(mhas(val, k), mhas(D, out(self.k_conv, k))))), ["C01"], "val")],
+                          and forall_val(lambda k: implies(mhas(val, k), mhas(D, out(self.k_conv, k))))), ["C01", "C05", "C06"], "val")],
      raises=(lambda self, val, exc: exc_is(exc, ParseInterrupt), ["C04"]))
 
 SPEC("pane.converters", "DictConverter.collect_errors",
